@@ -232,7 +232,11 @@ func cmpField(cx *ctx, exp *Val, fd protoreflect.FieldDescriptor, v protoreflect
 				return &diff{"missing", depth, at + "[" + key + "]", "map key absent"}
 			}
 			if val == nil {
-				val = &Val{K: "int", S: "0"}
+				if fd.MapValue().Message() != nil {
+					val = &Val{K: "msg"}
+				} else {
+					val = &Val{K: "int", S: "0"}
+				}
 			}
 			if d := cmpSingle(cx, val, fd.MapValue(), rv, depth, at+"["+key+"]"); d != nil {
 				return d
